@@ -110,11 +110,11 @@ _A = ["execCall", "execAsyncCall"]
 _E = ["eventCall", "smSend"]
 SRC_TIE = {
     "C07": ["eventCall", "reservedNames", "injectedNames", "bindExpected", "callableMethod", "engBase", "takeCallback"],
-    "C16": ["engBase", "factory"] + ["surface"],
+    "C16": ["engBase", "factory"] + ["surface", "glue"],
     "C13": _E + ["allowedEvents", "decl"] + ["surface"],
     "C15": ["decl", "factory"] + ["surface"],
     "C18": ["diagram"] + ["surface"],
-    "C10": ["store", "smInit"] + ["surface"],
+    "C10": ["store", "smInit"] + ["surface", "glue"],
     "C12": ["smInit", "registerCallbacks", "addListener", "registry", "specs", "takeCallback"],
     "C17": ["getState", "setState", "registerCallbacks", "addListener"] + ["surface"],
     "C09": ["visitConnected", "classCheck", "metaInit", "transitionInit", "decl"],
@@ -123,9 +123,9 @@ SRC_TIE = {
     "C03": ["processSync", "processAsync"] + _E + ["engBase"],
     "C04": ["activateSync", "activateAsync", "processSync", "processAsync"] + _A,
     "C06": ["processSync", "processAsync", "engBase"],
-    "C05": ["activateSync", "activateAsync", "triggerSync", "triggerAsync", "processSync", "processAsync"] + _W + _G + _A,
+    "C05": ["activateSync", "activateAsync", "triggerSync", "triggerAsync", "processSync", "processAsync"] + _W + _G + _A + ["glue"],
     "C08": _W + _G + ["parser", "specs", "takeCallback"],
-    "C11": ["triggerSync", "triggerAsync", "engineStart", "store", "smInit", "engBase"],
+    "C11": ["triggerSync", "triggerAsync", "engineStart", "store", "smInit", "engBase", "glue"],
     "C14": ["activateSync", "activateAsync", "triggerSync", "triggerAsync", "processSync", "processAsync"] + _W + _A
            + ["registerCallbacks", "addListener", "specs"],
 }
@@ -133,9 +133,9 @@ TIE_MOD = "SMV.Src.Tie"
 TIE_MODS = ["SMV.Src.Tie", "SMV.Src.TieExpr"]
 # further tie modules, built and audited only for the properties whose index names their theorems
 TIE_EXTRA = {"C07": ["SMV.Src.TieBind", "SMV.Src.TieEng", "SMV.Src.TieTake"], "C03": ["SMV.Src.TieEng"], "C06": ["SMV.Src.TieEng"],
-             "C16": ["SMV.Src.TieEng", "SMV.Src.TieFactory", "SMV.Src.TieSurface"], "C09": ["SMV.Src.TieCheck", "SMV.Src.TieDecl"], "C01": ["SMV.Src.TieDecl", "SMV.Src.TieSurface"],
-             "C15": ["SMV.Src.TieDecl", "SMV.Src.TieFactory", "SMV.Src.TieSurface"], "C18": ["SMV.Src.TieDiagram", "SMV.Src.TieSurface"], "C10": ["SMV.Src.TieStore", "SMV.Src.TieSurface"],
-             "C11": ["SMV.Src.TieStore", "SMV.Src.TieEng"], "C12": ["SMV.Src.TieStore", "SMV.Src.TieReg", "SMV.Src.TieSpec", "SMV.Src.TieTake"], "C02": ["SMV.Src.TieReg", "SMV.Src.TieStore", "SMV.Src.TieDecl", "SMV.Src.TieSpec"],
+             "C16": ["SMV.Src.TieEng", "SMV.Src.TieFactory", "SMV.Src.TieSurface", "SMV.Src.TieGlue"], "C05": ["SMV.Src.TieGlue"], "C09": ["SMV.Src.TieCheck", "SMV.Src.TieDecl"], "C01": ["SMV.Src.TieDecl", "SMV.Src.TieSurface"],
+             "C15": ["SMV.Src.TieDecl", "SMV.Src.TieFactory", "SMV.Src.TieSurface"], "C18": ["SMV.Src.TieDiagram", "SMV.Src.TieSurface"], "C10": ["SMV.Src.TieStore", "SMV.Src.TieSurface", "SMV.Src.TieGlue"],
+             "C11": ["SMV.Src.TieStore", "SMV.Src.TieEng", "SMV.Src.TieGlue"], "C12": ["SMV.Src.TieStore", "SMV.Src.TieReg", "SMV.Src.TieSpec", "SMV.Src.TieTake"], "C02": ["SMV.Src.TieReg", "SMV.Src.TieStore", "SMV.Src.TieDecl", "SMV.Src.TieSpec"],
              "C14": ["SMV.Src.TieStore", "SMV.Src.TieSpec"], "C08": ["SMV.Src.TieSpec", "SMV.Src.TieTake"], "C13": ["SMV.Src.TieStore", "SMV.Src.TieDecl", "SMV.Src.TieSurface"],
              "C17": ["SMV.Src.TieStore", "SMV.Src.TieSurface"]}
 
